@@ -45,7 +45,7 @@ CHECKS = {
          "Replayed pairs are a seeded subset of the lattice TLC explores (quick) on two generated inputs and cterm_hid.pdb; PQR parsing is harness code.",
          "DESIGN.md 6/C09", ["Pipeline", "Pipeline2", "MC_Pipeline2", "Pipeline2Trace"]),
  "C11": ("model_checking",
-         "TLA+ spec History (process-lifetime state across runs): TLC exhaustive over all histories <= 3 of eighteen configurations; TLC-emitted histories executed in fresh interpreters under several hash seeds (incl. the console entry point); TLC trace validation (HistoryTrace): one outcome per configuration",
+         "TLA+ spec History (process-lifetime state across runs): TLC exhaustive over all histories <= 3 of nineteen configurations; TLC-emitted histories executed in fresh interpreters under several hash seeds (incl. the console entry point); TLC trace validation (HistoryTrace): one outcome per configuration",
          "Every history TLC emits is run in its own interpreter through run_pdb2pqr; the digest of the PQR bytes (or the exception class) of each run is recorded and TLC requires the outcome to be a function of the configuration across positions, histories, processes and hash seeds; configurations include same --ff with different --usernames, two user force fields, an input needing multi-atom repair, failing runs and a PROPKA run.",
          "Hash seeds and (in quick) histories of length 3 are sampled; nine configurations; verdict on output bytes only.",
          "DESIGN.md 6/C11", ["History", "HistoryTrace"]),
